@@ -752,6 +752,8 @@ func (ex *Exec) mapUpdate(fr *Frame, x *ssa.MapUpdate, st *State, pc **Term) {
 	was := Select(Select(hc, m), k)
 	ex.setAt(st, has, Store(hc, m, Store(Select(hc, m), k, True)), m)
 	lc := ex.get(st, ln, ArrSort(SRef, BV(64)))
+	// a map that holds some key has at least one entry (representation invariant of maps)
+	ex.pendingAssume = append(ex.pendingAssume, Implies(was, BVCmp("bvsge", Select(lc, m), BVu(1, 64))), BVCmp("bvsge", Select(lc, m), BVu(0, 64)), BVCmp("bvsle", Select(lc, m), BVu(1<<40, 64)))
 	ex.setAt(st, ln, Store(lc, m, Ite(was, Select(lc, m), BVOp("bvadd", Select(lc, m), BVu(1, 64)))), m)
 	fs := flat(ex.val(fr, x.Value))
 	for i, l := range leaves(mt.Elem()) {
